@@ -4,6 +4,7 @@ import (
 	"fmt"
 	"go/ast"
 	"go/constant"
+	"go/token"
 	"go/types"
 	"sort"
 	"strings"
@@ -508,6 +509,10 @@ func init() {
 		c.assumeDef(tAnd(tLe(out.Len, res.Len), tLe(res.Len, full.Len), tImp(tNot(fail), tEq(res.Len, full.Len)), tImp(fail, tLt(res.Len, full.Len))))
 		c.assumeDef(tForall([][2]string{{"i!w", SInt}}, tImp(tAnd(tLe("0", "i!w"), tLt("i!w", res.Len)),
 			tEq(tSel(res.Arr.(Sc).T, "i!w"), tSel(full.Arr.(Sc).T, tAdd(full.Off, "i!w")))), tSel(res.Arr.(Sc).T, "i!w")))
+		// shortcut (implied by the facts above): whatever happens, the old output is a prefix of the new one
+		c.assumeDef(tGe(res.Len, out.Len))
+		c.assumeDef(tForall([][2]string{{"i!w", SInt}}, tImp(tAnd(tLe("0", "i!w"), tLt("i!w", out.Len)),
+			tEq(tSel(res.Arr.(Sc).T, "i!w"), tSel(out.Arr.(Sc).T, tAdd(out.Off, "i!w")))), tSel(res.Arr.(Sc).T, "i!w")))
 		no.F["out"] = res
 		no.F["failed"] = scBool(tOr(w.F["failed"].(Sc).T, fail))
 		e := c.fresh("werr", SInt)
@@ -627,17 +632,29 @@ func init() {
 		c.assumeHere( tAnd(tImp(has, tEq(r, cut)), tImp(tNot(has), tEq(r, s))))
 		return Sc{r, SStr}, st1
 	})
-	reg("strings.Split", "splits s around each instance of the (constant, one-byte) separator: n+1 fields for n separators, none containing the separator, whose concatenation with separators is s", func(x *Exec, n *ast.CallExpr, recv ast.Expr, st *State) (Val, *State) {
+	reg("strings.Split", "splits s around each instance of the (constant, one-byte) separator c: splitN(s,c) fields, field k = s[splitS(k):splitE(k)], fields separated by single c bytes, none containing c, covering s (specs/00base.spec)", func(x *Exec, n *ast.CallExpr, recv ast.Expr, st *State) (Val, *State) {
 		sv, st1 := x.eval(n.Args[0], st)
 		_, st2 := x.eval(n.Args[1], st1)
 		c := x.c
 		c.usesStr = true
+		s := sv.(Sc).T
+		if cv, ok := x.constOf(n.Args[1]); ok && len(constant.StringVal(cv)) == 1 && constant.StringVal(cv)[0] < 0x80 {
+			sep := tInt(int64(constant.StringVal(cv)[0]))
+			for _, f := range []string{"splitN", "splitS", "splitE", "splitF"} {
+				c.used[f] = true
+			}
+			cnt := app("splitN", s, sep)
+			arr := c.fresh("splitarr", arrSort(SInt, SStr))
+			c.assumeDef(tForall([][2]string{{"k!s", SInt}}, tEq(tSel(arr, "k!s"), app("splitF", s, sep, "k!s")), tSel(arr, "k!s")))
+			c.assumeDef(tGe(cnt, "1"))
+			return Sl{Sc{arr, arrSort(SInt, SStr)}, "0", cnt, tFalse, types.Typ[types.String]}, st2
+		}
 		c.declareFun("split!n", []string{SStr, SStr}, SInt)
 		c.declareFun("split!f", []string{SStr, SStr}, arrSort(SInt, SStr))
 		sepv, _ := x.eval(n.Args[1], st2)
-		s, sep := sv.(Sc).T, sepv.(Sc).T
+		sep := sepv.(Sc).T
 		cnt := app("split!n", s, sep)
-		c.assumeHere( tGe(cnt, "1"))
+		c.assumeHere(tGe(cnt, "1"))
 		return Sl{Sc{app("split!f", s, sep), arrSort(SInt, SStr)}, "0", cnt, tFalse, types.Typ[types.String]}, st2
 	})
 	reg("(*bufio.Reader).UnreadByte", "steps back one byte if the last operation was a successful ReadByte (else error, no effect)", func(x *Exec, n *ast.CallExpr, recv ast.Expr, st *State) (Val, *State) {
@@ -791,8 +808,14 @@ func parseExtern(name, doc, okFn, valFn, valSort string) {
 		}
 		c := x.c
 		c.usesStr = true
-		c.declareFun(okFn, []string{SStr}, SBool)
-		c.declareFun(valFn, []string{SStr}, valSort)
+		if c.eng.specs.funcs[okFn] != nil {
+			// specified in specs/*.spec (with axioms)
+			c.used[okFn] = true
+			c.used[valFn] = true
+		} else {
+			c.declareFun(okFn, []string{SStr}, SBool)
+			c.declareFun(valFn, []string{SStr}, valSort)
+		}
 		s := sv.(Sc).T
 		ok := app(okFn, s)
 		e := c.fresh("perr", SInt)
@@ -866,22 +889,7 @@ func (x *Exec) fprintf(n *ast.CallExpr, st *State, mode string) (Val, *State) {
 			pieces = append(pieces, c.freshSeq("rendered"))
 		}
 	}
-	switch mode {
-	case "printf":
-		cv, isConst := x.constOf(n.Args[1])
-		if !isConst {
-			// format chosen between constants (bed.go: txt := "%v" / ",%v"): evaluate symbolically is not possible; abstract
-			fv, s := x.eval(n.Args[1], st)
-			st = s
-			_ = fv
-			for _, a := range n.Args[2:] {
-				_, st = x.eval(a, st)
-			}
-			c.notes = append(c.notes, "Fprintf with non-constant format: rendering abstracted to arbitrary bytes at "+c.posOf(n))
-			pieces = append(pieces, c.freshSeq("rendered"))
-			break
-		}
-		f := constant.StringVal(cv)
+	renderFormat := func(f string) {
 		argi := 2
 		cur := ""
 		for i := 0; i < len(f); i++ {
@@ -896,10 +904,55 @@ func (x *Exec) fprintf(n *ast.CallExpr, st *State, mode string) (Val, *State) {
 			}
 			lit(cur)
 			cur = ""
+			if i >= len(f) || argi >= len(n.Args) {
+				c.notes = append(c.notes, "Fprintf format with a missing operand: rendering abstracted to arbitrary bytes at "+c.posOf(n))
+				pieces = append(pieces, c.freshSeq("rendered"))
+				continue
+			}
 			render(n.Args[argi], f[i])
 			argi++
 		}
 		lit(cur)
+	}
+	var altFull *Sl
+	switch mode {
+	case "printf":
+		cv, isConst := x.constOf(n.Args[1])
+		if !isConst {
+			// a format held in a local variable that is only ever assigned constant strings
+			// (bed.go: txt := "%v"; if i > 0 { txt = ",%v" }): one rendering per candidate, selected by the variable's value
+			fv, s := x.eval(n.Args[1], st)
+			st = s
+			cands := x.constStringAssignments(n.Args[1])
+			if fs, ok := fv.(Sc); ok && fs.S == SStr && len(cands) > 0 && len(cands) <= 4 {
+				out := w.F["out"].(Sl)
+				res := c.freshSeq("fmtout")
+				for _, cand := range cands {
+					pieces = nil
+					renderFormat(cand)
+					full := out
+					for _, p := range pieces {
+						full = x.appendSeq(full, p, "out")
+					}
+					c.assumeDef(tImp(tEq(fs.T, c.strLit(cand)), tAnd(tEq(res.Len, full.Len),
+						tForall([][2]string{{"i!w", SInt}}, tImp(tAnd(tLe("0", "i!w"), tLt("i!w", full.Len)),
+							tEq(tSel(res.Arr.(Sc).T, "i!w"), tSel(full.Arr.(Sc).T, tAdd(full.Off, "i!w")))), tSel(res.Arr.(Sc).T, "i!w")))))
+				}
+				c.assumeDef(tGe(res.Len, out.Len))
+				c.assumeDef(tForall([][2]string{{"i!w", SInt}}, tImp(tAnd(tLe("0", "i!w"), tLt("i!w", out.Len)),
+					tEq(tSel(res.Arr.(Sc).T, "i!w"), tSel(out.Arr.(Sc).T, tAdd(out.Off, "i!w")))), tSel(res.Arr.(Sc).T, "i!w")))
+				pieces = nil
+				altFull = &res
+				break
+			}
+			for _, a := range n.Args[2:] {
+				_, st = x.eval(a, st)
+			}
+			c.notes = append(c.notes, "Fprintf with non-constant format: rendering abstracted to arbitrary bytes at "+c.posOf(n))
+			pieces = append(pieces, c.freshSeq("rendered"))
+			break
+		}
+		renderFormat(constant.StringVal(cv))
 	case "print", "println":
 		for i, a := range n.Args[1:] {
 			if mode == "println" && i > 0 {
@@ -916,6 +969,9 @@ func (x *Exec) fprintf(n *ast.CallExpr, st *State, mode string) (Val, *State) {
 	full := out
 	for _, p := range pieces {
 		full = x.appendSeq(full, p, "out")
+	}
+	if altFull != nil {
+		full = *altFull
 	}
 	no := Obj{w.Kind, map[string]Val{}}
 	for k, v := range w.F {
@@ -934,6 +990,10 @@ func (x *Exec) fprintf(n *ast.CallExpr, st *State, mode string) (Val, *State) {
 		c.assumeDef( tImp(tNot(fail), tAnd(tEq(res.Len, full.Len),
 			tForall([][2]string{{"i!w", SInt}}, tImp(tAnd(tLe("0", "i!w"), tLt("i!w", full.Len)),
 				tEq(tSel(res.Arr.(Sc).T, "i!w"), tSel(full.Arr.(Sc).T, tAdd(full.Off, "i!w")))), tSel(res.Arr.(Sc).T, "i!w")))))
+		// shortcut (implied by the facts above): whatever happens, the old output is a prefix of the new one
+		c.assumeDef(tGe(res.Len, out.Len))
+		c.assumeDef(tForall([][2]string{{"i!w", SInt}}, tImp(tAnd(tLe("0", "i!w"), tLt("i!w", out.Len)),
+			tEq(tSel(res.Arr.(Sc).T, "i!w"), tSel(out.Arr.(Sc).T, tAdd(out.Off, "i!w")))), tSel(res.Arr.(Sc).T, "i!w")))
 		no.F["out"] = res
 		no.F["failed"] = scBool(tOr(w.F["failed"].(Sc).T, fail))
 		e := c.fresh("werr", SInt)
@@ -946,6 +1006,85 @@ func (x *Exec) fprintf(n *ast.CallExpr, st *State, mode string) (Val, *State) {
 	st = x.assignBack(n.Args[0], no, st)
 	cnt := c.fresh("wn", SInt)
 	return Tup{[]Val{scInt(cnt), scInt(errT)}}, st
+}
+
+// constStringAssignments: if e is a local variable all of whose assignments in the
+// enclosing function are constant strings, those constants (else nil).
+func (x *Exec) constStringAssignments(e ast.Expr) []string {
+	id, ok := ast.Unparen(e).(*ast.Ident)
+	if !ok || x.body == nil {
+		return nil
+	}
+	obj := x.info.Uses[id]
+	if obj == nil || obj.Parent() == nil || obj.Parent() == obj.Pkg().Scope() {
+		return nil
+	}
+	var out []string
+	seen := map[string]bool{}
+	bad := false
+	add := func(rhs ast.Expr) {
+		cv, ok := x.constOf(rhs)
+		if !ok || cv.Kind() != constant.String {
+			bad = true
+			return
+		}
+		if v := constant.StringVal(cv); !seen[v] {
+			seen[v] = true
+			out = append(out, v)
+		}
+	}
+	ast.Inspect(x.body, func(nn ast.Node) bool {
+		switch n := nn.(type) {
+		case *ast.AssignStmt:
+			for i, l := range n.Lhs {
+				li, ok := ast.Unparen(l).(*ast.Ident)
+				if !ok {
+					continue
+				}
+				lo := x.info.Defs[li]
+				if lo == nil {
+					lo = x.info.Uses[li]
+				}
+				if lo != obj {
+					continue
+				}
+				if len(n.Rhs) != len(n.Lhs) || (n.Tok != token.ASSIGN && n.Tok != token.DEFINE) {
+					bad = true
+					continue
+				}
+				add(n.Rhs[i])
+			}
+		case *ast.ValueSpec:
+			for i, nm := range n.Names {
+				if x.info.Defs[nm] == obj {
+					if i < len(n.Values) {
+						add(n.Values[i])
+					} else {
+						out = append(out, "")
+					}
+				}
+			}
+		case *ast.UnaryExpr:
+			if n.Op == token.AND {
+				if ai, ok := ast.Unparen(n.X).(*ast.Ident); ok && x.info.Uses[ai] == obj {
+					bad = true
+				}
+			}
+		case *ast.RangeStmt:
+			for _, kv := range []ast.Expr{n.Key, n.Value} {
+				if ki, ok := kv.(*ast.Ident); ok && kv != nil {
+					if x.info.Defs[ki] == obj || x.info.Uses[ki] == obj {
+						bad = true
+					}
+				}
+			}
+		}
+		return true
+	})
+	if bad {
+		return nil
+	}
+	return out
 }
 
 func externList(used map[string]bool) []string {
